@@ -4088,6 +4088,16 @@ impl Context {
         }
     }
 
+    /// Whether declarations may come from an external subset, which is not read.
+    fn external_subset(&self) -> bool {
+        let document = self.document();
+        let document = document.borrow();
+        document.standalone != Some(true)
+            && document
+                .document_declaration()
+                .is_some_and(|v| v.borrow().system_identifier.is_some())
+    }
+
     pub fn set_text_expanded(&mut self, value: bool) {
         self.text_expanded = value;
     }
@@ -4311,8 +4321,12 @@ fn check_entity_ref(
             XmlEntityValue::Character(v, 10) => char_from_char10(v)? == '<',
             XmlEntityValue::Character(v, _) => char_from_char16(v)? == '<',
             XmlEntityValue::Entity(v) => {
-                if let Ok(v) = context.entity(v) {
-                    check_entity_ref(&v, attribute, context, seen)?;
+                match context.entity(v) {
+                    Ok(v) => check_entity_ref(&v, attribute, context, seen)?,
+                    // WFC: Entity Declared
+                    // (it may be declared in the external subset, which is not read)
+                    Err(_) if context.external_subset() => {}
+                    Err(e) => return Err(e),
                 }
                 false
             }
